@@ -334,13 +334,25 @@ def _execute(program, stats, hist):
     h = world.hedgers["h0"]
     w = SimWatcher(p, pspec["kind"], pspec["params"], stats, hist)
     for op in program["ops"]:
+        try:
+            _one_op(op, world, stats, hist, p, d, h, w, st_mod)
+        except Violation as v:
+            w.trigger, w.expect = "direct", None
+            torch.set_grad_enabled(True)
+            if not stats.known_hit(v):
+                raise
+    return stats, hist
+
+
+def _one_op(op, world, stats, hist, p, d, h, w, st_mod):
+    if True:
         seq = hist.seq
         if "fault" in op:
             torch.set_default_dtype(DT[op["dtype"]])
             stats.fault("F4_default_dtype_flip")
             stats.probe("default_dtype_flip")
             hist.add(fault="default_dtype", dtype=op["dtype"])
-            continue
+            return
         name = op["op"]
         stats.op(name if name not in ("via", "generate") else (name + ":" + (op.get("kind") if name == "via" else op["fn"])))
         init = tuple(op["init_state"]) if op.get("init_state") is not None else None
@@ -397,7 +409,6 @@ def _execute(program, stats, hist):
         elif name == "generate":
             _generate(op, stats, hist, seq, st_mod)
         stats.state(abstract_state(world), name)
-    return stats, hist
 
 
 def _generate(op, stats, hist, seq, st_mod):
